@@ -25,6 +25,7 @@ import (
 	"sync"
 	"time"
 
+	"github.com/uber-go/tally/v4/internal/verifhook"
 	"go.uber.org/atomic"
 )
 
@@ -267,11 +268,14 @@ func (s *scope) reportLoop(interval time.Duration) {
 }
 
 func (s *scope) reportLoopRun() {
+	verifhook.Point(verifhook.PassBegin)
+	defer verifhook.Point(verifhook.PassEnd)
 	// n.b. Close() takes the same lock before it sets the closed flag, so a
 	//      pass that is in flight when Close() is called ends with the flag
 	//      still clear and no pass starts once Close() has the lock.
 	s.reportMu.Lock()
 	defer s.reportMu.Unlock()
+	verifhook.Point(verifhook.PassLocked)
 
 	if s.closed.Load() {
 		return
@@ -296,6 +300,7 @@ func (s *scope) Counter(name string) Counter {
 		return c
 	}
 
+	verifhook.Point(verifhook.MetricProbeMissed)
 	s.cm.Lock()
 	defer s.cm.Unlock()
 
@@ -332,6 +337,7 @@ func (s *scope) Gauge(name string) Gauge {
 		return g
 	}
 
+	verifhook.Point(verifhook.MetricProbeMissed)
 	s.gm.Lock()
 	defer s.gm.Unlock()
 
@@ -367,6 +373,7 @@ func (s *scope) Timer(name string) Timer {
 		return t
 	}
 
+	verifhook.Point(verifhook.MetricProbeMissed)
 	s.tm.Lock()
 	defer s.tm.Unlock()
 
@@ -412,6 +419,7 @@ func (s *scope) Histogram(name string, b Buckets) Histogram {
 		htype = durationHistogramType
 	}
 
+	verifhook.Point(verifhook.MetricProbeMissed)
 	s.hm.Lock()
 	defer s.hm.Unlock()
 
@@ -530,6 +538,7 @@ func (s *scope) Snapshot() Snapshot {
 
 func (s *scope) Close() error {
 	if s.root {
+		verifhook.Point(verifhook.CloseEnter)
 		// n.b. Wait for the report loop to end, after the lock is released
 		//      (a tick may be blocked on it). Defer order is important (LIFO).
 		defer s.wg.Wait()
@@ -546,7 +555,9 @@ func (s *scope) Close() error {
 	close(s.done)
 
 	if s.root {
+		verifhook.Point(verifhook.CloseBeforeFinal)
 		s.reportRegistry()
+		verifhook.Point(verifhook.CloseAfterFinal)
 		if closer, ok := s.baseReporter.(io.Closer); ok {
 			return closer.Close()
 		}
